@@ -21,6 +21,7 @@ RULES = [
     Rule('C09.R2', 'loop-start / loop-end callbacks are invoked at the sites where the loop flags are consumed', 3),
     Rule('C09.R3', 'loop callbacks registered by the user are stored only by their setter or from the hooks twin', 8),
     Rule('C09.R4', 'loop markers are recognised case-insensitively, validated with their own duplicate flags, and the repeat counter is re-armed on rewind', 8),
+    Rule('C09.R5', 'loop markers raise the loop flags only while looping is enabled', 2),
 ]
 EXPLANATION = ('CFG dominance / post-dominance over BW_MidiSequencer::processEvents (jump sites vs. the counted controller-123 loops), guard facts for the '
                'callback sites, the field-ownership rule of C18 restricted to the hook slots, and AST pattern agreement for marker parsing and validation. '
@@ -154,6 +155,7 @@ def analyse(facts, tier):
 
     # ---- R4
     obls += r4(facts)
+    obls += r5_enabled(facts)
     return obls
 
 
@@ -262,4 +264,23 @@ def r4(facts):
     out.append(Obl('C09.R4', rw.name, 'repeat counter re-armed', rw.loc, 'discharged' if ok else 'finding',
                    why='loopsCount is loaded from the requested count before LoopState::reset() copies it into loopsLeft' if ok else
                    'rewind does not load the requested loop count before re-arming loopsLeft'))
+    return out
+
+
+
+def r5_enabled(facts):
+    """with looping disabled the song plays straight through: the stores that raise caughtStart / caughtEnd / caughtStack* in handleEvent sit under m_loopEnabled"""
+    out = []
+    he = facts.fn(SEQ + '::handleEvent')
+    for b, j, st in he.cfg.stmts():
+        for x in walk(st['s']):
+            ap = assign_parts(x)
+            if ap and strip(ap[0]).get('k') == 'MemberExpr' and short(strip(ap[0])['n']).startswith('caught') and const_of(ap[1]) == 1:
+                gf = guard_facts(he, b, st)
+                ok = any(f[0] == 'truth' and f[2] and mentions(f[1], member_named('m_loopEnabled')) for f in gf)
+                out.append(Obl('C09.R5', he.name, '%s = true' % short(strip(ap[0])['n']), st['loc'], 'discharged' if ok else 'finding',
+                               why='under m_loopEnabled' if ok else
+                               'a loop marker raises %s although looping is disabled: processEvents ends (or jumps) at the marker and the rest of the song is never delivered' % short(strip(ap[0])['n'])))
+    if len(out) < 2:
+        raise build.AnalysisBroken('C09.R5: loop-flag stores of handleEvent not found')
     return out
